@@ -3,7 +3,7 @@
 set -e
 cd "$(dirname "$0")/coq"
 [ -f Makefile ] || coq_makefile -f _CoqProject -o Makefile >/dev/null
-timeout 3000 make -j16 2>&1 | grep -v '^COQ\|^make\|^CAMLOPT' || true
+timeout 3000 make -j16 2>&1 | grep -v '^COQ\|^make\|^CAMLOPT\|^Closed under\|^Axioms:\|^ClassicalDedekind\|^FunctionalExt\|^Classical_Prop\|^  ' || true
 test ${PIPESTATUS[0]} -eq 0
 cd Extract
 if [ ! -f driver ] || [ Extract.v -nt driver ] || [ driver.ml -nt driver ] || [ -n "$(find ../Model ../Base -name '*.vo' -newer driver 2>/dev/null)" ]; then
